@@ -60,7 +60,16 @@ fn default_layout() -> Layout {
     }
 }
 
-const ENVS: [(&str, &[&str]); 9] = [
+const ENVS: [(&str, &[&str]); 18] = [
+    ("RUST_BACKTRACE", &["1", "full"]),
+    ("CLICOLOR_FORCE", &["1"]),
+    ("USER", &["nobody"]),
+    ("PWD", &["/"]),
+    ("TMPDIR", &["/nonexistent"]),
+    ("RAYON_NUM_THREADS", &["1", "7"]),
+    ("SFS_THREADS", &["1", "9"]),
+    ("NUM_THREADS", &["3"]),
+    ("SIMIO_ARGV0", &["create", "sfs2", "view"]),
     ("RUST_LOG", &["trace", "off", "sfs=debug"]),
     ("LANG", &["de_DE.UTF-8", "C", "tr_TR.UTF-8"]),
     ("LC_ALL", &["C", "fr_FR.UTF-8"]),
@@ -249,13 +258,15 @@ impl Prop for C12 {
         let mut rng = Rng::new(seed);
         let thorough = tier == Tier::Thorough;
         let big = thorough && rng.chance(1, 10);
-        let mut p = CallSetParams::standard(if big { 40 } else { 10 }, if big { 2500 } else { 30 });
+        // now and then an input larger than the 8 KiB reader buffer / the 64 KiB pipe and BGZF limits
+        let mid = !big && rng.chance(1, 25);
+        let mut p = CallSetParams::standard(if big { 40 } else if mid { 30 } else { 10 }, if big { 2500 } else if mid { 700 } else { 30 });
         p.allow_strict = true;
         p.allow_ploidy = false;
         let (callset, cfg) = gen::gen_callset(&mut rng, &p);
         let vcf = callset.to_vcf();
-        let n_l2 = if big { 6 } else { 9 };
-        let n_l1 = if big { 4 } else { 10 };
+        let n_l2 = if big || mid { 6 } else { 9 };
+        let n_l1 = if big || mid { 4 } else { 10 };
         let mut variants = vec![];
         for _ in 0..n_l2 {
             variants.push(gen_variant(&mut rng, &vcf, false, thorough));
@@ -324,6 +335,14 @@ impl Prop for C12 {
             }
             if v.threads > 1 && v.container.is_bgzf() {
                 out.count("threads.multi_on_bgzf", 1);
+            }
+            if bytes.len() > 65536 {
+                out.count("input.larger_than_64KiB", 1);
+            } else if bytes.len() > 8192 {
+                out.count("input.larger_than_8KiB", 1);
+            }
+            if v.env.iter().any(|(k, _)| k == "SIMIO_ARGV0") {
+                out.count("variant.l2.argv0", 1);
             }
             out.sigs.push(fnv1a(format!("{}/{}/{:?}/{}/{}", v.container.name(), v.layout.blocks.len().min(20), v.transport, v.threads, v.l1).as_bytes()));
             if v.l1 {
@@ -505,6 +524,7 @@ impl Prop for C12 {
             "variant.l2.environment",
             "variant.l2.repeat",
             "variant.l2.filename",
+            "input.larger_than_8KiB",
             "variant.l1.layout",
             "layout.with_empty_blocks",
             "layout.many_blocks",
